@@ -4,6 +4,7 @@
 # passes, demo fails with the change and passes without  3. apply to /repo, run ./check <id>, undo.
 pid=$1; src=${2:-/tmp/wt-$pid}; name=${3:-$pid}
 . /verif/env.sh
+if [ -n "$(git -C /repo status --porcelain)" ]; then echo "refusing: /repo has uncommitted changes (commit them first)"; exit 9; fi
 out=/verif/seeded/$name; mkdir -p $out
 cp $src/_seeded/patch.diff $out/patch.diff
 cp $src/_seeded/zz_seeded_demo_test.go $out/zz_seeded_demo_test.go 2>/dev/null || cp $src/vgirpc/zz_seeded_demo_test.go $out/
